@@ -257,6 +257,18 @@ def breach_wrappers(F, CG):
                     mod = sp.rsplit('::', 1)[0]
                     if field in fields[sp] and fn['path'].lstrip('<').startswith(mod + '::'):
                         out[sp].setdefault(fn['path'], set()).add(field)
+            # a composite: two or more mutating state methods called under ONE lock acquisition are one transition
+            # that exists only in this function
+            region = []
+            for e in path.events:
+                if e['k'] == 'lock' and e.get('fn') == fn['path']:
+                    region = []
+                elif e['k'] == 'call' and e.get('mode') == 'inline' and e.get('fn') == fn['path'] \
+                        and e['callee'] in layer and (e.get('argtys') or [''])[0].startswith('&mut'):
+                    region.append(e['callee'])
+                    if len(region) >= 2:
+                        out[layer[e['callee']]].setdefault(fn['path'], set()).add(
+                            '<' + '+'.join(c.split('::')[-1] for c in region) + '>')
     F._breach = out
     for sp in out:
         F.alias_fns.update(out[sp])
@@ -437,3 +449,20 @@ def innermost(stack, among):
         if f in among:
             return f
     return None
+
+
+def transitions_named(F, CG, state_adt, name):
+    """the state's own method of that name (if it exists) plus every function outside the state layer that acts as a
+    transition of that name (a public operation that mutates the state itself or composes several state calls)"""
+    out = [m for m in F.methods_of(state_adt) if m.get('name') == name]
+    for p in sorted(breach_wrappers(F, CG).get(state_adt, {})):
+        fn = F.fn(p)
+        if fn and fn.get('name') == name:
+            out.append(fn)
+    return out
+
+
+def unknown_transitions(F, CG, state_adt, known):
+    """functions outside the state layer that act as transitions of the state under a name the caller has no rule for"""
+    return [p for p in sorted(breach_wrappers(F, CG).get(state_adt, {}))
+            if (F.fn(p) or {}).get('name') not in known]
